@@ -3,7 +3,7 @@
    no-panic result for the model the drivers run. *)
 From Lal Require Import Common.LBytes Common.Res Media.MediaMsgChecked Media.MediaMsgProofs Media.MediaDummyAudio Media.MediaDummyProofs
   Media.MediaTsRemux Media.MediaTsProofs Media.MediaRtspRemux Media.MediaRtspProofs Media.MediaBroadcast Media.MediaBroadcastProofs
-  Media.MediaCodecGlue.
+  Media.MediaCodecGlue Media.MediaCostProofs Media.MediaAmortProofs.
 From Lal Require Import Codec.CodecBits Codec.CodecAvcSeqHeader Codec.CodecHevcSeqHeader.
 From Coq Require Import Lia ZifyN ZifyNat ZifyBool.
 Open Scope N_scope.
@@ -202,4 +202,25 @@ Lemma no_panic_short (c : grp_cfg) (history : list gev) :
 Proof.
   intros Hadd H. apply no_panic_main; [exact Hadd|]. intros m Hm. destruct (H m Hm) as [Hw Hs].
   split; [exact Hw|apply short_video_f13_free; exact Hs].
+Qed.
+
+(* amortised work of a whole history on the model the drivers run *)
+Lemma bounded_work_main (c : grp_cfg) (history : list gev) :
+  gc_add c = false ->
+  (forall m, In (GPub m) history -> well_framed m /\ f13_free m) ->
+  exists tot, m_gtotal fixes_all c history = Some tot /\
+              tot <= (11 + joins_count history) * pubs_cost history
+                     + (10 + joins_count history) * 4293 * pubs_count history.
+Proof.
+  intros Hadd H. unfold m_gtotal.
+  destruct (gtotal_amort fixes_all (glue_cf fixes_all) (glue_rf fixes_all) glue_sf cfg_fixed c fixes_all_ok glue_cf_safe glue_rf_safe Hadd
+              (10 + joins_count history) history grp_init) as (tot & E & Hle).
+  - apply ginv_init.
+  - apply Forall_forall. intros e He. destruct e as [m| | |]; cbn; try exact I.
+    destruct (H m He) as [Hw Hf]. split; assumption.
+  - change (fan grp_init) with 8. lia.
+  - exists tot. split; [exact E|].
+    assert (P0 : phi (10 + joins_count history) grp_init = 0) by (unfold phi; vm_compute pending; change (dW (g_dummy grp_init)) with 0; lia).
+    rewrite P0 in Hle. unfold fill_cost in Hle.
+    replace (10 + joins_count history + 1) with (11 + joins_count history) in Hle by lia. lia.
 Qed.
